@@ -321,14 +321,23 @@ func scenariosC04(tier string) []Scen {
 				to = len(ms)
 			}
 			d := c04Desc{Set: set, From: from, To: to, Sample: ms[from:min(from+3, to)]}
-			out = append(out, Scen{Desc: d, Bound: 0, Horizon: 5000000, Body: c04Body(d, tier), Check: c04Check, Obs: c04Obs})
+			out = append(out, Scen{Desc: d, Bound: 0, Horizon: 5000000, Body: c04Body(d, tier), Check: c04Check, Obs: c04Obs, Cases: c04Cases})
 		}
 		d := c04Desc{Set: set, NonCall: true}
 		b := 0
 		if len(set) <= 1 {
 			b = 1
 		}
-		out = append(out, Scen{Desc: d, Bound: b, Body: c04Body(d, tier), Check: c04Check, Obs: c04Obs})
+		out = append(out, Scen{Desc: d, Bound: b, Body: c04Body(d, tier), Check: c04Check, Obs: c04Obs, Cases: c04Cases})
 	}
 	return out
+}
+
+func c04Cases(x *vsched.Exec) int {
+	if w := worldOf(x); w != nil {
+		if st, ok := w.LC.(*c04State); ok {
+			return st.calls
+		}
+	}
+	return 0
 }
